@@ -196,12 +196,35 @@ loop:
 	return finished, current, stderr
 }
 
+// budget picks a count per mode: normal quick run, violation search (a tie or an obligation broke), thorough.
+func budget(o *common.Options, quick, search, thorough int) int {
+	switch {
+	case o.Thorough():
+		return thorough
+	case o.Search:
+		return search
+	}
+	return quick
+}
+
 // childProcs: sequential histories need no parallelism inside a child (the pool supplies it); races do.
 func childProcs(kind string) string {
 	if kind == "seq" {
 		return "1"
 	}
 	return "4"
+}
+
+// failCapped records at most three failures per key (the report keeps 50 in all; every distinct key must fit).
+var failCount = map[string]int{}
+
+func failCapped(rep *common.Report, f common.OracleFailure) {
+	failCount[f.Key]++
+	if failCount[f.Key] <= 3 {
+		rep.Fail(f)
+	} else {
+		rep.Count("ORACLE-FAIL:" + f.Key)
+	}
 }
 
 // ---------- engines ----------
@@ -260,7 +283,7 @@ func evalSeq(cases []Case, o *common.Options, rep *common.Report, probeKeys map[
 		}
 		rep.Sample(map[string]any{"case": c, "last": lastLine(r, c)})
 		fail := func(key, detail string) {
-			rep.Fail(common.OracleFailure{Engine: "cred", Key: key, Case: c, Detail: detail})
+			failCapped(rep, common.OracleFailure{Engine: "cred", Key: key, Case: c, Detail: detail})
 		}
 		pk := probeKeys[i]
 		reproduced := false
@@ -323,6 +346,14 @@ func evalSeq(cases []Case, o *common.Options, rep *common.Report, probeKeys map[
 		}
 	}
 	return nil
+}
+
+// concCrashKey: the Go run time's own verdict on unsynchronised map access gets one key whatever was raced.
+func concCrashKey(kinds, msg string) string {
+	if strings.Contains(msg, "concurrent map") {
+		return "conc:fatal-concurrent-map"
+	}
+	return "conc:crash:" + kinds
 }
 
 // crashKey classifies a crash by the event it happened in and what the run time said.
@@ -391,24 +422,24 @@ func evalRace(cases []Case, o *common.Options, rep *common.Report) error {
 			rep.Diverge(common.Divergence{Engine: "conc", Case: c, Impl: "harness error: " + r.HarnessErr, Model: ""})
 			continue
 		case r.Panic != "":
-			rep.Fail(common.OracleFailure{Engine: "conc", Key: "conc:crash:" + kinds, Case: c, Detail: r.Panic})
+			failCapped(rep, common.OracleFailure{Engine: "conc", Key: concCrashKey(kinds, r.Panic), Case: c, Detail: "raced " + kinds + ": " + r.Panic})
 			continue
 		}
 		if len(r.Events) > 0 {
 			// the sequential prefix already violates the statement (a sequential defect, keyed as such): the race says nothing new
 			if k, d := views(r.Events[0].Obs, "race-prefix"); k != "" {
-				rep.Fail(common.OracleFailure{Engine: "conc", Key: k, Case: c, Detail: "before the race starts: " + d})
+				failCapped(rep, common.OracleFailure{Engine: "conc", Key: k, Case: c, Detail: "before the race starts: " + d})
 				continue
 			}
 		}
 		for _, oc := range r.Outcomes {
 			if k, d := views(oc.Obs, kinds); k != "" {
-				rep.Fail(common.OracleFailure{Engine: "conc", Key: "conc:" + k, Case: c, Detail: fmt.Sprintf("results %v, %d of %d repetitions: %s", oc.Ress, oc.N, c.Reps, d)})
+				failCapped(rep, common.OracleFailure{Engine: "conc", Key: "conc:" + strings.TrimSuffix(k, ":"+kinds), Case: c, Detail: fmt.Sprintf("raced %s, results %v, %d of %d repetitions: %s", kinds, oc.Ress, oc.N, c.Reps, d)})
 				break
 			}
 			// acknowledged changes reach the file once the save has run
 			if es, ok := oc.Obs.File.entries(); anyOK(oc.Ress, c.Race) && (!ok || !sameSet(es, oc.Obs.Creds)) {
-				rep.Fail(common.OracleFailure{Engine: "conc", Key: "conc:file-mismatch-after-save:" + kinds, Case: c,
+				failCapped(rep, common.OracleFailure{Engine: "conc", Key: "conc:file-mismatch-after-save", Case: c,
 					Detail: fmt.Sprintf("results %v: file %s, listing %s", oc.Ress, oc.Obs.File, fmtEntries(oc.Obs.Creds))})
 				break
 			}
@@ -510,19 +541,20 @@ func evalHammers(cases []Case, rep *common.Report, probe bool) {
 		case r.HarnessErr != "":
 			rep.Diverge(common.Divergence{Engine: "conc", Case: c, Impl: "harness error: " + r.HarnessErr, Model: ""})
 		case r.Panic != "":
-			key = "conc:crash:" + kinds
-			rep.Fail(common.OracleFailure{Engine: "conc", Key: key, Case: c, Detail: r.Panic})
+			key = concCrashKey(kinds, r.Panic)
+			failCapped(rep, common.OracleFailure{Engine: "conc", Key: key, Case: c, Detail: r.Panic})
 		case r.HammerFail != "":
-			key = "conc:" + strings.TrimSuffix(r.HammerFail, ":race") + ":" + kinds
-			rep.Fail(common.OracleFailure{Engine: "conc", Key: key, Case: c, Detail: r.HammerInfo})
+			key = "conc:" + strings.TrimSuffix(r.HammerFail, ":race")
+			failCapped(rep, common.OracleFailure{Engine: "conc", Key: key, Case: c, Detail: r.HammerInfo})
 		}
 		if probe {
 			// the two F7 witnesses
 			// the two F7 witnesses (schedule-dependent: several templates / processes try)
 			if kinds == "add|delete|reload" {
-				for _, pk := range []string{"conc:unlisted-key-accepted:add|delete|reload", "conc:crash:add|delete|reload"} {
-					rep.FindingsProbed[pk] = rep.FindingsProbed[pk] || key == pk
-				}
+				rep.FindingsProbed["conc:unlisted-key-accepted"] = rep.FindingsProbed["conc:unlisted-key-accepted"] || key == "conc:unlisted-key-accepted"
+			}
+			if strings.HasSuffix(kinds, "|reload") {
+				rep.FindingsProbed["conc:fatal-concurrent-map"] = rep.FindingsProbed["conc:fatal-concurrent-map"] || key == "conc:fatal-concurrent-map"
 			}
 		}
 	}
@@ -581,7 +613,23 @@ func parentMain() {
 			}
 		}
 		only := os.Getenv("C08_ONLY") // debugging aid: seq | race | hammer
-		n := o.Budget(1200, 25000)
+		if err == nil && (only == "" || only == "hammer") {
+			reps := budget(o, 3000, 10000, 30000)
+			l := common.Pick(r, []int{16, 32})
+			hs := hammers(l, reps)
+			hs = append(hs, starves(l, budget(o, 150, 600, 1000))...)
+			hs = append(hs, reloadLoops(l, budget(o, 2, 4, 4), budget(o, 6000, 15000, 20000))...)
+			evalHammers(hs, rep, true)
+		}
+		if err == nil && (only == "" || only == "race") {
+			nr := budget(o, 160, 400, 1500)
+			var rc []Case
+			for i := 0; i < nr; i++ {
+				rc = append(rc, genRace(r.Fork(uint64(1_000_000+i))))
+			}
+			err = evalRace(rc, o, rep)
+		}
+		n := budget(o, 1200, 4000, 12000)
 		if only != "" && only != "seq" {
 			n = 0
 		}
@@ -593,22 +641,7 @@ func parentMain() {
 				cases = cases[:0]
 			}
 		}
-		if err == nil && (only == "" || only == "race") {
-			nr := o.Budget(160, 3000)
-			var rc []Case
-			for i := 0; i < nr; i++ {
-				rc = append(rc, genRace(r.Fork(uint64(1_000_000+i))))
-			}
-			err = evalRace(rc, o, rep)
-		}
-		if err == nil && (only == "" || only == "hammer") {
-			reps := o.Budget(3000, 100000)
-			l := common.Pick(r, []int{16, 32})
-			hs := hammers(l, reps)
-			hs = append(hs, starves(l, o.Budget(150, 3000))...)
-			hs = append(hs, reloadLoops(l, o.Budget(2, 6), o.Budget(6000, 30000))...)
-			evalHammers(hs, rep, true)
-		}
+
 	}
 	if err != nil {
 		fmt.Fprintln(os.Stderr, "corr_c08:", err)
